@@ -228,7 +228,7 @@ def run(R):
     for b in F.bodies.values():
         if b.crate != "ant_networking":
             continue
-        for c in b.calls:
+        for c in b.calls_raw:
             at = c.get("arg_tys") or []
             if at and VMAP in at[0]:
                 n_sites += 1
@@ -248,7 +248,7 @@ def run(R):
     from props.C04 import agg_field_operands
     n_split, lossy = 0, []
     for b in F.bodies.values():
-        if b.crate != "ant_networking" or not any("SplitRecord" in (a.get("variant") or "") for a in (b.aggregates or [])):
+        if b.crate != "ant_networking" or not any("SplitRecord" in (a.get("variant") or "") for a in (b.aggregates_raw or [])):
             continue
         prep(b)
         for _blk, st, o in agg_field_operands(b, "ant_networking::error::GetRecordError", "result_map"):
@@ -375,10 +375,31 @@ def run(R):
             ok = bool(push) and bool(getrec) and not (g.reach(tuple(push)) & set(getrec))
             # the push is decided by key equality
             eqs = [c for c in compare_sites(hnc) if c["bb"] in region and c["op"] in ("Eq", "Ne") and "Key" in (hnc.locals.get(str(op_local(c["a"])), "") + hnc.locals.get(str(op_local(c["b"])), ""))]
+            tr = Tracker(hnc)
+            for c in eqs:
+                tr.seed_bool(c["d"], c["op"] == "Eq")
+            # … or by a `find` / `position` / `any` over the pending queries whose predicate closure is that equality
+            from rules import PREDICATE_TAKERS, closures_passed, closure_truth_table
+            for blk in hnc.blocks:
+                t = blk["term"]
+                if blk["id"] not in region or t["k"] != "call" or blk["cleanup"] or len(t.get("d") or []) != 1:
+                    continue
+                nm = t.get("ngen") or t.get("ncallee") or ""
+                kind = next((k for suf, k in PREDICATE_TAKERS if nm.endswith(suf)), None)
+                if kind is None:
+                    continue
+                for cl in closures_passed(F, hnc, t):
+                    prep(cl)
+                    tt = closure_truth_table(cl, lambda b_, cs: "K" if cs["op"] in ("Eq", "Ne") and "Key" in (b_.locals.get(str(op_local(cs["a"])), "") + b_.locals.get(str(op_local(cs["b"])), "")) else None)
+                    if tt is None or tt[0] != ["K"]:
+                        continue
+                    if all(v == dict(k)["K"] for k, v in tt[1].items()):
+                        eqs = eqs + [{"closure": cl.path}]
+                        if kind == "true":
+                            tr.seed_bool(t["d"][0], True)
+                        else:
+                            tr.seed_call_result(t["d"][0], (kind,), False)
             if eqs:
-                tr = Tracker(hnc)
-                for c in eqs:
-                    tr.seed_bool(c["d"], c["op"] == "Eq")
                 tr.run()
                 ok = ok and bool(tr.accept) and not (set(push) & g.reach(starts, cut=tr.accept))
             else:
